@@ -48,6 +48,7 @@ func VerifC02Auth() {
 	ctx := context.Background()
 	inner := &vfs.Storage{}
 	t0 := vf.Now()
+	vf.ShortScenario(t0, time.Second)
 	// the server's roots: current = universe key 0, next = universe key 1; current may have expired
 	curExpired := vf.Bool("current-root-expired")
 	curNA := t0.Add(time.Duration(vf.IfInt(curExpired, int(-time.Minute), int(time.Hour))))
@@ -146,6 +147,7 @@ func VerifC02Fetch() {
 	ctx := context.Background()
 	st := &vfs.Storage{}
 	t0 := vf.Now()
+	vf.ShortScenario(t0, time.Second)
 	cur, _ := vfs.StoreRoots(ctx, st, t0)
 	_ = cur
 	key := 2
